@@ -32,25 +32,24 @@ ASSUMPTIONS = ["biases are small dyadic rationals (|x| < 2^16, denominators <= 2
                "floating point operation of the implementation is exact and comparison with the rational model is exact",
                "moved-from objects are only cleared or assigned to, as the standard library guarantees no more",
                "sanitizers see the header code compiled into the driver, not the code compiled into the Python extension (that half is covered by the child-interpreter stream and valgrind)"]
-PARTIAL = ["cq.* ops with a Coq-side model (Model/ChkC20Cqm.v over g9's Model/Expr.v + ExprOps.mstep; every dump of both CQM objects compared: "
-           "variable info, per expression variables() order, linear by position, offset, quadratic per unordered pair (sum + presence), "
-           "expr_ok evaluated on the observed state): add_variable(s), add_constraint() / add_constraints, new_constraint + add_constraint "
-           "by copy and by move, add_constraint from a QuadraticModel (copy path with distinct labels, move path), add_linear_constraint, "
-           "set_objective (with and without mapping), remove_constraint, remove_variable, fix_variable, fix_variables (bulk, copying, into either object), substitute_variable, change_vartype, "
-           "set_lower/upper_bound, clear, copy ctor/assignment, move ctor/assignment, swap, and on an expression: add_linear, set_linear, "
-           "add_quadratic, add_quadratic_back (within its ordering promise on the internal indices), add_offset, set_offset, remove_interaction, remove_variable, remove_variables, substitute_variable, clear",
-           "cq.* ops that stay sanitizer-only (native invariant + ASan/UBSan + live assertions; the Coq model is re-loaded from the dump "
-           "after them): Expression::set_quadratic, Expression::fix_variable, Expression/Constraint::scale, "
-           "remove_constraints_if, add_constraint(QM const&) with repeated labels "
-           "in the mapping; constraint attributes (sense, rhs, weight, penalty, discrete marker), energy, is_disjoint and weak_ptr "
-           "expiry are executed but not compared",
+PARTIAL = ["every cq.* op of the driver now has a Coq-side model (Model/ChkC20Cqm.v over g9's Model/Expr.v + ExprOps.mstep) and every dump of "
+           "both CQM objects is compared: variable info, per expression variables() order, linear by position, offset, quadratic per "
+           "unordered pair (sum + presence), constraint attributes (sense, rhs, weight, penalty, discrete marker), the values returned "
+           "by energy and is_disjoint, expr_ok on the observed state; NOT compared: weak_ptr expiry (executed under the sanitizers only), "
+           "and the order of the stored quadratic terms inside an expression (the model keeps an unordered term list; sortedness of the "
+           "stored neighbourhoods is checked by the driver's native invariant, not in Coq)",
            "indices_ of an Expression is not observable through the public C++ API: its consistency with variables() is checked by the "
            "driver's write-through-label / read-through-index probe, not in Coq",
            "the cq.* cases run on a g++ build of the driver (same flags and sanitizers): the order in which "
            "add_quadratic(enforce_variable(u), enforce_variable(v)) evaluates its arguments is unspecified in C++ and Model/Expr.v mirrors GCC "
            "(v first); clang evaluates u first, which changes variables() order only",
-           "BinaryQuadraticModel::change_vartype: Inv preservation is proved under the hypothesis that every variable of the object is "
-           "BINARY/SPIN (all_binspin); that this holds for every reachable BQM object is checked per case (vartypes compared after "
-           "every op) but not proved as an invariant of the step function",
+           "the model functions of ChkC20Cqm.v that are not in g9's ExprOps (set_quadratic, Expression::fix_variable, scale, fix_variables copy "
+           "path, remove_constraints_if, is_onehot, energy) are tied by the per-case comparison only; g9's ExprInv / refinement theorems cover "
+           "the ops that go through ExprOps.mstep",
+           "functional specifications are theorems for the base operations (read-after-write), remove_interactions, substitute_variables, "
+           "bulk remove_variables (= iterated remove_variable) and dense construction (= the add_quadratic calls); an energy-level "
+           "specification of substitute_variables / change_vartype is not proved here",
            "use-after-free through weak_ptr, signed overflow and allocator behaviour are not expressible in the model; they are covered only by the sanitizer run",
-           "Python boundary: a catalogue of malformed calls, not all argument values"]
+           "Python boundary: the catalogue of malformed calls is tied to the .pyx sources by translators/c20_py_surface.py (every "
+           "argument-taking method of the six Cython classes must have a catalogue entry or a stated exemption), but it samples argument "
+           "values, it does not enumerate them"]
